@@ -531,4 +531,79 @@ theorem revolve_aux0 (k : Consts K) (o : Fac.Obj K) (theta : K) (arc : ArcAux K)
     bind, Except.bind, pure, Except.pure, List.map_map, Function.comp_def]
   rw [e1, e2]
 
+/-! ## B-spline evaluation of placed / scaled nets -/
+
+/-- weights of the control points of a (possibly periodic) curve at a parameter: the sum of the
+    B-spline values of all wrapped images of control point `j`. -/
+def wrapW (s : Side) (τ : ℕ → K) (q n m : ℕ) (t : K) (j : ℕ) : K :=
+  ∑ i ∈ (range n).filter (fun i => i % m = j), B s τ q i t
+
+omit [IsStrictOrderedRing K] in
+theorem splineVal_netComp_eq_wS (s : Side) (τ : ℕ → K) (q n : ℕ) (net : List (Pt K)) (c : ℕ) (t : K)
+    (hm : 0 < net.length) :
+    splineVal s τ q n (netComp net c) t = wS net.length (wrapW s τ q n net.length t) (comp net c) := by
+  unfold splineVal wS wrapW
+  rw [← sum_fiberwise_of_maps_to (s := range n) (t := range net.length) (g := fun i => i % net.length)
+    (fun i _ => mem_range.2 (Nat.mod_lt _ hm))]
+  apply sum_congr rfl
+  intro j _
+  rw [sum_mul]
+  apply sum_congr rfl
+  intro i hi
+  rw [← (mem_filter.1 hi).2]
+  simp [netComp, comp, mul_comm]
+
+omit [IsStrictOrderedRing K] in
+/-- **Placement commutes with B-spline evaluation** (planar rational curves, periodic or not). -/
+theorem splineVal_placed (s : Side) (τ : ℕ → K) (q n : ℕ) (net : List (Pt K)) (t : K)
+    (hm : 0 < net.length) (h3 : Is3 net net.length) (ca sa ct st cp sp c1 c2 c3 : K) :
+    [splineVal s τ q n (netComp (net.map (placePt ca sa ct st cp sp [c1, c2, c3])) 0) t,
+     splineVal s τ q n (netComp (net.map (placePt ca sa ct st cp sp [c1, c2, c3])) 1) t,
+     splineVal s τ q n (netComp (net.map (placePt ca sa ct st cp sp [c1, c2, c3])) 2) t,
+     splineVal s τ q n (netComp (net.map (placePt ca sa ct st cp sp [c1, c2, c3])) 3) t]
+    = placePt ca sa ct st cp sp [c1, c2, c3]
+        [splineVal s τ q n (netComp net 0) t, splineVal s τ q n (netComp net 1) t,
+         splineVal s τ q n (netComp net 2) t] := by
+  have hl : (net.map (placePt ca sa ct st cp sp [c1, c2, c3])).length = net.length := by simp
+  have e : ∀ c, splineVal s τ q n (netComp (net.map (placePt ca sa ct st cp sp [c1, c2, c3])) c) t
+      = wS net.length (wrapW s τ q n net.length t) (comp (net.map (placePt ca sa ct st cp sp [c1, c2, c3])) c) := by
+    intro c
+    have := splineVal_netComp_eq_wS s τ q n (net.map (placePt ca sa ct st cp sp [c1, c2, c3])) c t (by rw [hl]; exact hm)
+    rw [hl] at this; exact this
+  rw [e 0, e 1, e 2, e 3, splineVal_netComp_eq_wS s τ q n net 0 t hm, splineVal_netComp_eq_wS s τ q n net 1 t hm,
+    splineVal_netComp_eq_wS s τ q n net 2 t hm]
+  exact wS_placePt net net.length _ h3 ca sa ct st cp sp c1 c2 c3
+
+omit [IsStrictOrderedRing K] in
+/-- scaling a planar rational net by `[r1, r2, …]` (`dim = 2`: the weight is untouched). -/
+theorem splineVal_scaled (s : Side) (τ : ℕ → K) (q n : ℕ) (net : List (Pt K)) (t r1 r2 : K) (rest : List K)
+    (hm : 0 < net.length) (h3 : Is3 net net.length) :
+    splineVal s τ q n (netComp (net.map (scalePt 2 (r1 :: r2 :: rest))) 0) t = r1 * splineVal s τ q n (netComp net 0) t ∧
+    splineVal s τ q n (netComp (net.map (scalePt 2 (r1 :: r2 :: rest))) 1) t = r2 * splineVal s τ q n (netComp net 1) t ∧
+    splineVal s τ q n (netComp (net.map (scalePt 2 (r1 :: r2 :: rest))) 2) t = splineVal s τ q n (netComp net 2) t ∧
+    Is3 (net.map (scalePt 2 (r1 :: r2 :: rest))) net.length := by
+  have hpt : ∀ i, ∃ X Y W, net.getD (i % net.length) [] = [X, Y, W] := fun i => h3 _ (Nat.mod_lt _ hm)
+  have hc : ∀ i c, netComp (net.map (scalePt 2 (r1 :: r2 :: rest))) c i
+      = (scalePt 2 (r1 :: r2 :: rest) [netComp net 0 i, netComp net 1 i, netComp net 2 i]).getD c 0 := by
+    intro i c
+    obtain ⟨X, Y, W, e⟩ := hpt i
+    unfold netComp
+    rw [List.length_map, getD_map_of_ne_nil _ _ _ (by rw [e]; simp), e]
+    simp
+  refine ⟨?_, ?_, ?_, ?_⟩
+  · unfold splineVal
+    rw [mul_sum]; apply sum_congr rfl; intro i _
+    rw [hc i 0]; simp [scalePt]; ring
+  · unfold splineVal
+    rw [mul_sum]; apply sum_congr rfl; intro i _
+    rw [hc i 1]; simp [scalePt]; ring
+  · unfold splineVal
+    apply sum_congr rfl; intro i _
+    rw [hc i 2]; simp [scalePt]
+  · intro j hj
+    obtain ⟨X, Y, W, e⟩ := h3 j hj
+    refine ⟨X * r1, Y * r2, W, ?_⟩
+    rw [getD_map_of_ne_nil _ _ _ (by rw [e]; simp), e]
+    simp [scalePt]
+
 end Splipy.Fac
